@@ -205,7 +205,21 @@ def zm_multibase(case, ctx):
                              symmetric_upper=case["mode"] == "symm")
         uris.append(pth)
     out = os.path.join(d, "out.mcool")
-    cooler.zoomify_cooler(uris, out, list(case["resolutions"]), chunksize=case["chunk"])
+    how = case.get("dtypes_arg", "none")
+    if how == "cli":
+        # `cooler zoomify --field count` (no dtype given): the command passes an empty dtype mapping
+        from click.testing import CliRunner
+        from cooler.cli import cli
+        args = ["zoomify", uris[0], "-r", ",".join(str(r) for r in case["resolutions"]), "-c", str(case["chunk"]), "-o", out,
+                "--field", "count"]
+        for u in uris[1:]:
+            args += ["--base-uri", u]
+        res = CliRunner().invoke(cli, args)
+        if res.exit_code != 0:
+            raise res.exception if isinstance(res.exception, Exception) else RuntimeError(res.output[-200:])
+    else:
+        cooler.zoomify_cooler(uris, out, list(case["resolutions"]), chunksize=case["chunk"],
+                              **({"dtypes": {}} if how == "empty" else {}))
     levels = []
     for pth in cooler.fileops.list_coolers(out):
         c = cooler.Cooler(out + "::" + pth)
